@@ -8,6 +8,7 @@
     a server that reports more bytes than it was asked for. *)
 From Coq Require Import ZArith NArith List Bool Lia.
 From P9V Require Import Client.Chunk Client.ChunkProofs.
+From P9V Require Import Base.GoArith gen.ArithGen Client.ChunkTie.
 Import ListNotations.
 
 (** chunk over ANY per-chunk function that never reports more than it was given:
@@ -149,3 +150,26 @@ Example C11_ex_read :
   let '((out, calls), st) := read_at 2 [0;0;0;0;0]%N 1 (rf_of_list [10;11;12;13;14]%N) [] in
   out = CRet 4 (Some CEOF) /\ rs_buf st = [11;12;13;14;0]%N /\ length calls = 3.
 Proof. vm_compute. repeat split. Qed.
+
+(** ---- the loop of the SOURCE (translated by go2coq ArithGen on every run, gen/ArithGen.v) ----
+    client_file.go chunk is read piece by piece -- the empty-buffer test, the statements before the call
+    of fn, the slice p[lo:hi] and the offset handed to fn, the statements after the call -- into Gallina
+    functions over Z with Go's int / int64 wrap-around at every operation; the translator checks the loop
+    skeleton (for { ... } around one call of fn, total starting at 0).  Run by that skeleton
+    ([gen_chunk], Client/ChunkTie.v; an out-of-range slice is a panic) they compute exactly Chunk.chunk,
+    for every chunk size a uint32 can hold except 0 (C13_source_client_payload_fits: the client's is
+    positive), every buffer length below 2^62, every offset, every per-chunk function reporting less than
+    2^62 bytes and every state.  So every theorem of this file is a theorem about the loop in the source. *)
+Theorem C11_source_loop_is_model :
+  forall (S : Type) (fn : S -> nat -> nat -> Z -> (nat * option cerr) * S),
+  (forall st pos len off, (Z.of_nat (fst (fst (fn st pos len off))) < 2 ^ 62)%Z) ->
+  forall (cs : nat) (st : S) (lenp : nat) (off : Z),
+  0 < cs -> (Z.of_nat cs < 2 ^ 32)%Z -> (Z.of_nat lenp < 2 ^ 62)%Z ->
+  gen_chunk S fn (Z.of_nat cs) st (Z.of_nat lenp) off = chunk fn cs st lenp off.
+Proof. exact gen_chunk_is_model. Qed.
+Print Assumptions C11_source_loop_is_model.
+
+(** the translated loop computes: 5 bytes in chunks of 2, the second Twrite short *)
+Example C11_ex_source_loop :
+  fst (gen_chunk _ tape_fn 2 [(2, None); (1, None)] 5 7) = (CRet 3 None, [mkcall 0 2 7 2 None; mkcall 2 2 9 1 None]).
+Proof. vm_compute. reflexivity. Qed.
